@@ -450,8 +450,8 @@ def abort_oracle(pid, case, impl, variants):
     if a.get('status') != 'ok' or b.get('status') != 'ok':
         return None
     if a['html'] != b['html']:
-        return (pid + '/output-depends-on-aborted-history', 'with reset after an aborted render: %r, in a fresh interpreter %r'
-                % (a['html'][:150], b['html'][:150]))
+        return (pid + '/output-depends-on-aborted-history', 'after an aborted render (%s): %r, in a fresh interpreter %r'
+                % ('with reset' if case['calls'][-1].get('reset') else 'that leaves no state, no reset', a['html'][:150], b['html'][:150]))
     return None
 
 
